@@ -100,3 +100,31 @@ package parse
 //@   trusted
 //@   requires[S] bufInv(l)
 //@   ensures[S]  result != nil && sameBytes()
+
+// ---- util.go helpers (C16)
+//@ pred lowerOf(c) := ite('A' <= c && c <= 'Z', c + 32, c)
+//@ pred isWS(c) := c == ' ' || c == '\t' || c == '\n' || c == '\r' || c == '\f'
+
+//@ func Copy
+//@   ensures[S]  len(dst) == len(src) && cap(dst) == len(src) && fresh(dst) && sameBytesExcept(0, 0)
+//@   ensures[F,C16]  forall(i, 0, len(src), dst[i] == old(src[i]))
+
+//@ func ToLower
+//@   ensures[S]  sameSlice(result, src) && sameBytesExcept(ptr(src), ptr(src)+len(src))
+//@   ensures[S,C16]  forall(i, 0, len(src), src[i] == lowerOf(old(src[i])))
+//@   loop 1 invariant -1 <= rangeindex && rangeindex < len(src) && sameBytesExcept(ptr(src), ptr(src)+len(src))
+//@   loop 1 invariant forall(j, 0, rangeindex+1, src[j] == lowerOf(old(src[j]))) && forall(j, rangeindex+1, len(src), src[j] == old(src[j]))
+//@   loop 1 decreases len(src) - rangeindex
+
+//@ func EqualFold
+//@   ensures[F,C16]  result ==> len(s) == len(targetLower) && forall(i, 0, len(s), s[i] == targetLower[i] || ('A' <= s[i] && s[i] <= 'Z' && s[i] + 32 == targetLower[i]))
+//@   ensures[F,C16]  !result ==> len(s) != len(targetLower) || exists(i, 0, len(s), !(s[i] == targetLower[i] || ('A' <= s[i] && s[i] <= 'Z' && s[i] + 32 == targetLower[i])))
+//@   loop 1 invariant -1 <= rangeindex && rangeindex < len(targetLower) && len(s) == len(targetLower)
+//@   loop 1 invariant[F] forall(j, 0, rangeindex+1, s[j] == targetLower[j] || ('A' <= s[j] && s[j] <= 'Z' && s[j] + 32 == targetLower[j]))
+//@   loop 1 decreases len(targetLower) - rangeindex
+
+//@ func IsWhitespace
+//@   ensures[F,C16]  result <==> isWS(c)
+
+//@ func IsNewline
+//@   ensures[F,C16]  result <==> (c == '\n' || c == '\r')
